@@ -221,10 +221,13 @@ def boundary_stream(ctx, res, n):
     rng = ctx.rng
     tmp, keypath = P.setup(ctx)
     done = 0
-    for _ in range(n * 8):
-        if done >= n:
+    fixed = [{"k": "url", "required": False}, {"k": "hostname", "required": False}, {"k": "hostname", "required": False, "allow_ipv4": True},
+             {"k": "ipv4addr", "required": False}, {"k": "ipv4net", "required": False}, {"k": "int", "required": False, "min": -(2 ** 53), "max": 2 ** 53},
+             {"k": "port", "required": False}]
+    for _ in range(n * 8 + len(fixed)):
+        if done >= n + len(fixed):
             break
-        f = F.gen_field(rng, 0, scalar_only=True)
+        f = fixed.pop() if fixed else F.gen_field(rng, 0, scalar_only=True)
         if f["k"] == "string" and rng.random() < 0.5:
             # the combinations in which the stored form and the tested form can differ
             f = {"k": "string", "required": rng.random() < 0.3, "case": rng.choice(["lower", "upper"]),
